@@ -1,11 +1,11 @@
 package mgrsim
 
 import (
-	"os"
 	"encoding/binary"
 	"encoding/json"
 	"fmt"
 	"math/rand/v2"
+	"os"
 	"sort"
 	"strconv"
 	"strings"
@@ -74,6 +74,8 @@ type Sim struct {
 	drainN    int
 
 	watchdogMS int
+	inStep     bool
+	crash      *crasher
 
 	or *oracles
 }
@@ -302,8 +304,28 @@ func (s *Sim) record(label string) {
 	s.res.Count("step_"+kind, 1)
 }
 
+// execQuiet runs a background step without the per-step oracles (used while
+// draining a restarted instance).
+func (s *Sim) execQuiet(st stepRef) {
+	switch st.kind {
+	case "body":
+		st.job.state = jRunning
+		simrt.Release(st.job.wfd, false)
+		j := st.job
+		s.waitFor(func() bool { return j.state == jPost }, "body of "+j.name()+" after restart")
+	case "post":
+		j := st.job
+		j.state = jPosting
+		simrt.Release(j.wfd, false)
+		s.waitFor(func() bool { return !s.hasJob(j) }, "post of "+j.name()+" after restart")
+		s.settle()
+	}
+}
+
 func (s *Sim) exec(st stepRef) {
 	s.record(st.label)
+	s.inStep = true
+	defer func() { s.inStep = false }()
 	simrt.Advance(time.Duration(1+s.stepNo%7) * 13 * time.Millisecond)
 	switch st.kind {
 	case "api":
@@ -459,7 +481,9 @@ func (s *Sim) runSchedule() {
 		}
 		if st.kind == "restart" {
 			s.record("restart")
+			s.inStep = true
 			s.cleanRestart()
+			s.inStep = false
 			continue
 		}
 		apiLeft := false
